@@ -211,16 +211,25 @@ def addVsys (fixed : Bool) (p1 : Config) (v : Vsys) : Res Config :=
     else .panic (.index "p1.Devices.Entries[0]")
   | some (d :: ds) => .ok { devices := some ({ d with vsys := d.vsys ++ [v] } :: ds) }
 
-/-- `MergeSpoc`: every vsys of `p2`'s first device that `p1`'s first device does not have is
-added (rules of common vsys are merged without any index expression). -/
+/-- `MergeSpoc`: every vsys of `p2`'s first device whose name `p1`'s first device did not have
+(map `m1`, built once) is added. -/
 def mergeNew (fixed : Bool) : Config → List Vsys → Res Config
   | p1, [] => .ok p1
-  | p1, v :: vs =>
-    if (firstDevice p1).vsys.any (fun x => x.name = v.name) then mergeNew fixed p1 vs
-    else (addVsys fixed p1 v).bind fun p1' => mergeNew fixed p1' vs
+  | p1, v :: vs => (addVsys fixed p1 v).bind fun p1' => mergeNew fixed p1' vs
+
+/-- rules of a vsys that both first devices have are concatenated (no index expression). -/
+def mergeCommon (p1 p2 : Config) : Config :=
+  match p1.devices with
+  | some (d :: ds) =>
+    { devices := some ({ d with vsys := d.vsys.map fun v =>
+        match (firstDevice p2).vsys.reverse.find? (fun x => x.name = v.name) with
+        | some w => { v with nRules := v.nRules + w.nRules }
+        | none => v } :: ds) }
+  | _ => p1
 
 def mergeSpoc (fixed : Bool) (p1 p2 : Config) : Res Config :=
-  mergeNew fixed p1 ((firstDevice p2).vsys.filter fun v => ¬ (firstDevice p1).vsys.any (fun x => x.name = v.name))
+  mergeNew fixed (mergeCommon p1 p2)
+    ((firstDevice p2).vsys.filter fun v => ¬ (firstDevice p1).vsys.any (fun x => x.name = v.name))
 
 /-- `GetChanges`: `p1.Devices.Entries[0].Name` is read only for a vsys `v1` found in the first
 device of `p1`. -/
